@@ -62,13 +62,19 @@ func VerifC07Diff() {
 	in2 := make([]bool, u)
 	h1 := make([]string, u)
 	h2 := make([]string, u)
+	hist := rt.Param("hist", 0) // 1: ids of the local side may have been added and removed again
 	var e1, e2 []Element
+	var removed []int
 	for i := 0; i < u; i++ {
-		in1[i] = rt.Choose(2) == 1
+		st1 := rt.Choose(2 + hist)
+		in1[i] = st1 == 1
 		in2[i] = rt.Choose(2) == 1
-		if in1[i] {
+		if st1 >= 1 {
 			h1[i] = rt.String(1)
 			e1 = append(e1, Element{Id: ids[i], Head: h1[i]})
+			if st1 == 2 {
+				removed = append(removed, i)
+			}
 		}
 		if in2[i] {
 			h2[i] = rt.String(1)
@@ -76,6 +82,9 @@ func VerifC07Diff() {
 		}
 	}
 	d1.Set(e1...)
+	for _, i := range removed {
+		rt.Assert(d1.RemoveId(ids[i]) == nil, "remove-known-id")
+	}
 	d2.Set(e2...)
 	ctx := context.Background()
 	if variant == 0 {
